@@ -34,6 +34,31 @@ fn unlink_id_term(id: u64) -> OwnedTerm {
     }
 }
 
+/// The integer value of an unlink id term. Ids above `i32::MAX` arrive as big
+/// integers on the wire; anything wider than 64 bits is not an unlink id.
+fn unlink_id_value(term: &OwnedTerm) -> Option<i128> {
+    match term {
+        OwnedTerm::Integer(i) => Some(i128::from(*i)),
+        OwnedTerm::BigInt(big) => {
+            let significant = big
+                .digits
+                .iter()
+                .rposition(|&d| d != 0)
+                .map_or(0, |pos| pos + 1);
+            if significant > 8 {
+                return None;
+            }
+            let mut magnitude: u64 = 0;
+            for (i, digit) in big.digits[..significant].iter().enumerate() {
+                magnitude |= u64::from(*digit) << (8 * i);
+            }
+            let value = i128::from(magnitude);
+            Some(if big.sign.is_negative() { -value } else { value })
+        }
+        _ => None,
+    }
+}
+
 /// Control message types (first element of control tuple)
 #[derive(Debug, Clone, Copy, PartialEq, Eq)]
 #[repr(u8)]
@@ -388,7 +413,7 @@ impl ControlMessage {
             }),
 
             Some(ControlMessageType::UnlinkId) if elements.len() == 4 => {
-                let id_raw = elements[1].as_integer().ok_or_else(|| {
+                let id_raw = unlink_id_value(&elements[1]).ok_or_else(|| {
                     Error::InvalidControlMessage("UNLINK_ID id must be an integer".to_string())
                 })?;
 
@@ -407,7 +432,7 @@ impl ControlMessage {
             }
 
             Some(ControlMessageType::UnlinkIdAck) if elements.len() == 4 => {
-                let id_raw = elements[1].as_integer().ok_or_else(|| {
+                let id_raw = unlink_id_value(&elements[1]).ok_or_else(|| {
                     Error::InvalidControlMessage("UNLINK_ID_ACK id must be an integer".to_string())
                 })?;
 
